@@ -86,7 +86,7 @@ Fixpoint fin_apply (fuel : nat) (p : FinishedPdu) (ops : list (list Z)) : res Fi
     | (3 :: k :: _) :: r =>
         do rs <- resps_of_lists (firstn (Z.to_nat k) r);
         do p' <- fin_set_resps p (Some rs); fin_apply fuel' p' (skipn (Z.to_nat k) r)
-    | (4 :: cc :: _) :: r => fin_apply fuel' (fin_set_cc p cc) r
+    | (4 :: cc :: _) :: r => do p' <- fin_set_cc p cc; fin_apply fuel' p' r
     | _ :: r => fin_apply fuel' p r
     end
   end.
